@@ -117,6 +117,22 @@ def check(rep, F, rule="fold-table"):
         bufs = [R["lb"], R["tb"], R["ws"]]
         summary[nm] = {k: e7.buf_name(f, R[k]) for k in ("out", "lb", "tb", "ws")}
         summary[nm]["flag"] = cfg.expr_str(R["flag"]) if R["flag"][0] == "place" else (f.local_name(R["flag"][1]) or str(R["flag"]))
+        # --- the three buffers start empty: a fresh String, or a clear() that dominates every other use (they may be scanner fields that
+        # another scalar left filled)
+        opsf = e7.string_ops(f)
+        D = f.dominators()
+        for role in ("lb", "tb", "ws"):
+            b = R[role]
+            n += 1
+            if b[0] == "local":
+                rep.ok(rule, "%s:starts-empty(%s)" % (nm, e7.buf_name(f, b)), "String::new()")
+                continue
+            uses = [bb for bb, op, bx, arg in opsf if bx == b or (arg and arg[0] == "buf" and arg[1] == b)]
+            clears = [bb for bb, op, bx, arg in opsf if bx == b and op == "clear"]
+            first = [c for c in clears if all(u == c or c in D.get(u, ()) for u in uses)]
+            rep.check(bool(first), rule, "%s:starts-empty(%s)" % (nm, e7.buf_name(f, b)),
+                      "the pending-%s buffer is a scanner field and is not cleared before its first use in %s: what the previous scalar left in it "
+                      "takes part in this scalar's folding" % ({"lb": "break", "tb": "empty-lines", "ws": "blanks"}[role], nm), site=f.span)
         # --- flush region
         paths = e7.region_paths(f, R["flush"], R["flag"])
         summary[nm]["flush_paths"] = len(paths)
